@@ -88,8 +88,8 @@ var rulePanicParse = rulePanic("R-PANIC-PARSE",
 func init() {
 	register(rulePanicParse, ruleParseResult)
 	addProp(&PropSpec{
-		ID:    "C04",
-		Rules: []string{"R-PANIC-PARSE", "R-PARSE-RESULT"},
+		ID:          "C04",
+		Rules:       []string{"R-PANIC-PARSE", "R-PARSE-RESULT"},
 		Explanation: "Totality of Parse as a shape of the code: every construct that can raise a panic explicitly below Parse/Scan/Unmarshal* is enumerated over the call graph and must be contained by a recovering root that returns the documented error.",
 		Decided:     []string{"R-PANIC-PARSE: explicit panics, Must* calls and comma-less type assertions below the parse roots are contained by a deferred recover in parser.Parse that reports ErrParse"},
 		NotDecided:  []string{"termination of the lexer loops", "the goyacc runtime (trusted)", "size limits of regexp compilation"},
@@ -107,5 +107,18 @@ func init() {
 		Decided:     []string{"R-STATE: save/restore on every exit for each mutated context field (defer literal, restorer helper deferred at each call site, or explicit stores)", "R-INITONLY: `$`/vars/useTZ/path fixed during evaluation"},
 		NotDecided:  []string{"Query(P S) = concat over Query(P) of Query($ S): value-level", "equivalence of variable/literal roots with document roots"},
 		Assumptions: []string{"deferred functions run on every exit (Go semantics)"},
+	})
+}
+
+func init() {
+	addProp(&PropSpec{
+		ID:    "C08",
+		Rules: []string{"R-STATE-VERBOSE", "R-PAIR-C-HARD", "R-LAUNDER"},
+		Explanation: "WithSilent as a shape of the code: the suppression flag is cleared only between a save and a deferred restore (suppression inside predicates never leaks); a non-suppressible error is never lost at a call site; a suppressed failure never leaves a helper looking like a value.",
+		Decided: []string{"R-STATE-VERBOSE: verbose is restored on every exit of the only function that clears it; set elsewhere only by constructor and option",
+			"R-PAIR-C-HARD: no call site loses an error, including losses limited to non-cancellation errors",
+			"R-LAUNDER: (failed, nil) is not turned into a success by a helper"},
+		NotDecided:  []string{"equality of the silent and verbose results", "hard class of the datetime-template and precision/scale errors (covered by R-HARD only where an anchor exists)"},
+		Assumptions: []string{"callee coherence (R-PAIR-P, checked under C20/C06)"},
 	})
 }
